@@ -43,7 +43,25 @@ Theorem C02_delivered :
     In (OPub {| pb_app := d_appeui r; pb_eui := d_eui r; pb_payload := plain; pb_gw := g_eui (rx_gw rx); pb_radio := rx_radio rx |}) (snd res).
 Proof. exact uplink_delivered. Qed.
 
+From Lospan Require Import Base.Outcome Spec.RefDevice Proof.AnswerProof Proof.DownlinkSpecProof.
+(* "Frames the library itself encodes follow the specification": every data downlink the encoder produces from a
+   buffer read (any type, flags, counter, port and payload up to the EU868 limit, any session keys, any block cipher
+   returning 16 octets) is accepted by the reference LoRaWAN 1.0 end device of Spec/RefDevice.v - written from the
+   specification over the bytes on the air, using RFC 4493 only - which recovers exactly the type, the ACK flag, the
+   counter, the port and the plaintext: header layout, direction bit, key choice, keystream and MIC all agree. *)
+Theorem C02_downlink_follows_the_specification :
+  forall (E D : list N -> list N -> list N),
+    (forall k b, length (E k b) = 16%nat /\ bytes_ok (E k b) = true) ->
+    forall nk ak dev p c buf,
+      down_type (po_mtype p) -> (c < 65536)%N -> (d_addr dev < 4294967296)%N ->
+      (po_frm p = [] \/ port_ok (po_port p)) -> (length (po_frm p) <= 230)%nat ->
+      encode_message E nk ak (downlink_frame dev p c) = Ok buf ->
+      ref_on_downlink E nk ak (d_addr dev) buf
+      = Some (po_mtype p, po_ack p, c, match po_frm p with [] => None | _ => Some (po_port p) end, po_frm p).
+Proof. exact downlink_is_read_by_the_reference_device. Qed.
+
 Print Assumptions C02_decoder_accepts.
 Print Assumptions C02_mic_is_spec.
 Print Assumptions C02_plaintext.
 Print Assumptions C02_delivered.
+Print Assumptions C02_downlink_follows_the_specification.
